@@ -4,7 +4,8 @@
 // below ~600 bytes) the driver enumerates
 //   mode "full"    : the whole image on every path (reference; its projection digest is what "Same" means)
 //   mode "prefix"  : every prefix length n = 0 .. size-1 on every path (bytes / stream / wrap / wwrap)
-//   mode "corrupt" : every preamble byte position p < preLen x replacement values {0,1,0x7f,0x80,0xff,v-1,v+1} \ {v}
+//   mode "corrupt" : every preamble byte position p < preLen x replacement values
+//                    {0,1,2,3,4,8,16,32,64,0x7f,0x80,200,254,0xff,v-1,v+1,v-2,v+2,v/2,2v} \ {v} (thorough: all 255 others)
 // and logs ONE outcome event per attempt.  The bytes are placed flush against a PROT_NONE region (guardbuf.hpp);
 // attempts run in a forked child (one child per image; a child that faults reports and exits, the parent forks a
 // new one for the remaining attempts) with RLIMIT_AS, an allocation cap inside the tracking heap and a 2 s CPU
@@ -412,6 +413,9 @@ template<class T> static void build_kll_t(const char* tname, bool thorough) {
   typedef kll_sketch<T> S;
   struct K { const char* name; int k, n; };
   std::vector<K> kinds = {{"empty", 8, 0}, {"single", 8, 1}, {"exact", 8, 5}, {"est", 8, 60}};
+  // k above the minimum and n >> k: several levels, and lowering k / num_levels in the preamble still parses - to FEWER items than
+  // the image holds (only the final "whole image consumed" check rejects it, after the items were constructed)
+  if (g_long_strings) kinds.push_back({"deep-k16", 16, 500});
   if (thorough) { kinds.push_back({"est-deep", 8, 1000}); kinds.push_back({"exact-k20", 20, 19}); }
   for (auto& k : kinds) {
     if (g_long_strings && k.n == 0) continue;
@@ -426,6 +430,7 @@ template<class T> static void build_req_t(const char* tname, bool thorough) {
   struct K { const char* name; int k, n; bool hra; };
   std::vector<K> kinds = {{"empty", 4, 0, true}, {"single", 4, 1, true}, {"raw3", 4, 3, true}, {"exact-hra", 4, 10, true},
                           {"exact-lra", 4, 10, false}, {"est-hra", 4, 120, true}, {"est-lra", 4, 120, false}};
+  if (g_long_strings) kinds.push_back({"deep-k6", 6, 300, true});
   if (thorough) { kinds.push_back({"est-k6", 6, 400, true}); }
   for (auto& k : kinds) {
     if (g_long_strings && k.n == 0) continue;
@@ -442,6 +447,7 @@ template<class T> static void build_quantiles_t(const char* tname, bool thorough
   typedef quantiles_sketch<T> S;
   struct K { const char* name; int k, n; };
   std::vector<K> kinds = {{"empty", 4, 0}, {"single", 4, 1}, {"exact", 4, 6}, {"est", 4, 50}};
+  if (g_long_strings) kinds.push_back({"deep-k8", 8, 200});
   if (thorough) { kinds.push_back({"est-k8", 8, 300}); }
   for (auto& k : kinds) {
     if (g_long_strings && k.n == 0) continue;
@@ -846,7 +852,10 @@ static std::vector<Attempt> make_attempts(const Image& im, int vals_mode) {
     for (uint32_t pos = 0; pos < im.preLen; pos++) {
       const uint8_t v = im.bytes[pos];
       std::vector<int> vals;
-      if (vals_mode == 0) vals = {0, 1, 0x7f, 0x80, 0xff, (uint8_t)(v - 1), (uint8_t)(v + 1)};
+      // quick: boundary values, small counts / lg sizes, powers of two, and neighbours / half / double of the stored value
+      // (count- and size-like fields need values that still parse: a slightly smaller k, one level less, half the count)
+      if (vals_mode == 0) vals = {0, 1, 2, 3, 4, 8, 16, 32, 64, 0x7f, 0x80, 200, 254, 0xff, (uint8_t)(v - 1), (uint8_t)(v + 1),
+                                  (uint8_t)(v - 2), (uint8_t)(v + 2), (uint8_t)(v / 2), (uint8_t)(v * 2)};
       else for (int x = 0; x < 256; x++) vals.push_back(x);
       std::sort(vals.begin(), vals.end());
       vals.erase(std::unique(vals.begin(), vals.end()), vals.end());
